@@ -431,6 +431,67 @@ static void sceneSolveCase(vh::Rng &r, int cls, bool thorough) {
     }
 }
 
+
+// Deterministic witnesses of defect classes found by the random scenes (kept as regression inputs;
+// their tags let the lead register them as known findings).
+//  witness-endnode-visibility: three well separated nodes. Edge 0 runs from the centre of node 0
+//  up-left to node 2; node 1 sits to the right of node 0 sharing scan lines with it. At node 1's
+//  closing scan line the segment is still inside node 0, left of node 0's centre, so
+//  NodeEvent::createStraightConstraints skips the StraightConstraint ("segment is not visible from
+//  this node") - but node 0 is the segment's own end node and blocks nothing. Dragging node 2 to the
+//  right sweeps the segment across node 1 unhindered.
+static void witnessSolve(Scene &sc, vpsc::Dim dim, const std::vector<double> &des, const std::vector<double> &wts) {
+    printHeader(sc);
+    unsigned n = sc.nodes.size();
+    vpsc::Variables vs;
+    for (unsigned i = 0; i < n; ++i) vs.push_back(new vpsc::Variable(i, sc.rs[i]->getCentreD(dim)));
+    topology::setNodeVariables(sc.nodes, vs);
+    vpsc::Constraints cs;
+    g_dim = (int) dim;
+    {
+        topology::TopologyConstraints t(dim, sc.nodes, sc.edges, nullptr, vs, cs);
+        printf("D %d", (int) dim);
+        for (unsigned i = 0; i < n; ++i) {
+            vs[i]->desiredPosition = des[i]; vs[i]->weight = wts[i];
+            printf(" %s %s", hx(des[i]).c_str(), hx(wts[i]).c_str());
+        }
+        printf("\n"); fflush(stdout);
+        int loop = 100; bool again;
+        do { again = t.solve(); printState("solve", (int) dim, sc.nodes, sc.edges); } while (again && --loop > 0);
+    }
+    for (size_t i = 0; i < cs.size(); ++i) delete cs[i];
+    for (size_t i = 0; i < vs.size(); ++i) delete vs[i];
+    for (unsigned i = 0; i < n; ++i) sc.nodes[i]->var = nullptr;
+}
+
+static void witnessEndnodeVisibility(int variant) {
+    Scene sc;
+    sc.addNode(0, 20, 0, 20);
+    if (variant == 0) sc.addNode(22, 35, 5, 18);
+    else sc.addNode(22, 40, 21, 34);      // control: shares no scan line with node 0 -> constraint exists, edge bends
+    sc.addNode(-40, -20, 40, 60);
+    std::vector<std::pair<unsigned, int> > p;
+    p.push_back(std::make_pair(0u, (int) EP::CENTRE)); p.push_back(std::make_pair(2u, (int) EP::CENTRE));
+    if (pathValid(sc, p)) addEdge(sc, p, 40);
+    std::vector<double> des, wts;
+    for (unsigned i = 0; i < 3; ++i) { des.push_back(sc.rs[i]->getCentreX()); wts.push_back(1); }
+    des[2] = 100; wts[2] = 10000;
+    witnessSolve(sc, vpsc::XDIM, des, wts);
+}
+
+//  witness-parallel-segment-bend: the library's own scene test5 of tests/simple_bend.cpp (touching
+//  rectangles, the path runs along their shared sides, i.e. has segments parallel to the x axis and
+//  a corner shared by two bends) with other desired x positions, all weights 1. After the first
+//  solve() the bend at node 4's BR corner turns away from node 4 (assertConvexBend: "turn not
+//  tight: C6"): two bends become degenerate at the same alpha but only one is removed.
+static void witnessParallelSegmentBend() {
+    Scene sc;
+    simpleBendScene(sc, 4);
+    static const double d[] = {25.25, 3.75, 66, 107.75, 19.5, 92.5};
+    std::vector<double> des(d, d + 6), wts(6, 1.0);
+    witnessSolve(sc, vpsc::XDIM, des, wts);
+}
+
 // ------------------------------------------------------------------ ConstrainedFDLayout + addon
 
 struct SnapAddon : public topology::ColaTopologyAddon {
@@ -589,7 +650,7 @@ int main(int argc, char **argv) {
     for (long c = 0; c < 42; ++c, ++k) {
         if (!a.want(k)) continue;
         vh::beginCase(k, "tri-enum");
-        triEnumCase(c);
+        runIsolated([&]() { triEnumCase(c); });
         vh::endCase();
     }
     long nTri = (thorough ? 60 : 16) * a.scale;
@@ -598,7 +659,13 @@ int main(int argc, char **argv) {
         vh::Rng r = vh::caseRng(a.seed, k);
         bool exact = (c % 2 == 0);
         vh::beginCase(k, exact ? "tri-dyadic" : "tri-float");
-        triRandCase(r, exact);
+        runIsolated([&]() { triRandCase(r, exact); });
+        vh::endCase();
+    }
+    for (int v = 0; v < 3; ++v, ++k) {
+        if (!a.want(k)) continue;
+        vh::beginCase(k, v == 0 ? "witness-endnode-visibility" : v == 1 ? "control-shared-scanline" : "witness-parallel-segment-bend");
+        runIsolated([&]() { if (v < 2) witnessEndnodeVisibility(v); else witnessParallelSegmentBend(); });
         vh::endCase();
     }
     long nScene = (thorough ? 900 : 150) * a.scale;
